@@ -505,6 +505,8 @@ class Builder:
             original = self.b_corpus(pkg, name)
             if not _same_skeleton(original, v):
                 raise Rejected("changed-type")      # e.g. sympy.Ne(a, a) collapses to BooleanFalse
+            if _has_zero_qubit_stabilizer(v):
+                raise Rejected("zero-qubit-stabilizer")   # degenerate, outside the workload (see assumptions)
             with _cpu_limit(MUTATED_EVAL_CPU_SECONDS):
                 again = eval(text, dict(EVAL_GLOBALS), {})
             # A value that cannot even be compared with *itself* (XPowGate(dimension=0): ZeroDivisionError in
@@ -606,6 +608,28 @@ def _same_skeleton(a, b, depth=0) -> bool:
     if kids is None:
         return False
     return all(_same_skeleton(x, y, depth + 1) for _, x, y in kids)
+
+
+def _has_zero_qubit_stabilizer(v, depth=0) -> bool:
+    """CliffordTableau / StabilizerStateChForm on zero qubits, or a CliffordGate built on one: the constructors
+    accept them, nothing can be done with them; the workload leaves them out."""
+    if isinstance(v, (cirq.CliffordTableau, cirq.StabilizerStateChForm)):
+        return v.n == 0
+    if isinstance(v, cirq.CliffordGate):
+        return v.clifford_tableau.n == 0
+    if depth > 40:
+        return False
+    if isinstance(v, (list, tuple)):
+        return any(_has_zero_qubit_stabilizer(x, depth + 1) for x in v)
+    if isinstance(v, dict):
+        return any(_has_zero_qubit_stabilizer(x, depth + 1) for x in v.values())
+    if _is_cirq_obj(v) and hasattr(v, "_json_dict_"):
+        try:
+            d = v._json_dict_()
+        except Exception:  # noqa: BLE001
+            return False
+        return isinstance(d, dict) and any(_has_zero_qubit_stabilizer(x, depth + 1) for x in d.values())
+    return False
 
 
 class Rejected(Exception):
